@@ -30,7 +30,8 @@ theorem gauge_sorted (key : Nat → Nat) (dir : Nat → Option Nat) (ops : List 
   | nil => intro o ho; simp at ho
   | cons a rest ih =>
     intro o ho
-    have hnd' := List.nodup_cons.mp (by simpa using hnd)
+    have hnd' : a.node ∉ rest.map Op.node ∧ (rest.map Op.node).Nodup := by
+      rw [List.map_cons] at hnd; exact List.nodup_cons.mp hnd
     have hs' := List.pairwise_cons.mp hsorted
     rw [applyOps_cons]
     rcases List.mem_cons.mp ho with rfl | hmem
@@ -43,6 +44,7 @@ theorem gauge_sorted (key : Nat → Nat) (dir : Nat → Option Nat) (ops : List 
         · intro heq
           have h1 := hcloser p (by simp [hp])
           have h2 := hs'.1 p hp
+          rw [heq] at h1
           omega
     · exact ih (applyOp dir a) hnd'.2 hs'.2 (fun o ho => hcloser o (by simp [ho])) o hmem
 
